@@ -244,3 +244,213 @@ Proof.
       * exists s'. split; [exact Hru|]. split; [exact Hw|]. split; [exact Hrok|]. split; [exact Hne'|]. split; [exact Hsz|].
         cbn [zpre zpost fr_L fr_R flat_map app]. rewrite app_nil_r. split; [exact Habs|]. split; [exact H1|exact H2].
 Qed.
+
+(* the leaf from which an item was erased (and that is not empty), after the conditional resetLimits *)
+Lemma leaf_fix : forall fs l (IA IB : zmap) e item w,
+  IA ++ IB <> [] -> root_ok (plug (NLeaf l (IA ++ e :: IB)) fs) ->
+  exists l' fs',
+    (if (nn_zlen IA =? 0) || (nn_zlen IA =? nn_zlen (IA ++ IB))
+     then nn_reset_limits Z nn_zcmp (length fs) (NNSt Z (plug (NLeaf l (IA ++ IB)) fs) (zpath fs) item w)
+     else NNSt Z (plug (NLeaf l (IA ++ IB)) fs) (zpath fs) item w)
+    = NNSt Z (plug (NLeaf l' (IA ++ IB)) fs') (zpath fs) item w /\
+    same_sibs fs fs' /\ root_ok (plug (NLeaf l' (IA ++ IB)) fs').
+Proof.
+  intros fs l IA IB e item w Hne Hok.
+  assert (Hsibs : sibs_ok fs) by (apply (root_ok_sibs _ _ Hok)).
+  assert (Hchain : chain_ok (NLeaf l (IA ++ IB)) fs).
+  { destruct fs as [|fr fs]; [exact I|]. apply plug_ok_iff in Hok; [|discriminate].
+    apply (chain_ok_lim _ (NLeaf l (IA ++ e :: IB))); [reflexivity|tauto]. }
+  assert (Hnolim : nn_lim Z (plug (NLeaf l (IA ++ IB)) fs) = None).
+  { rewrite <- (plug_lim fs (NLeaf l (IA ++ e :: IB)) (NLeaf l (IA ++ IB)) eq_refl). apply Hok. }
+  destruct ((nn_zlen IA =? 0) || (nn_zlen IA =? nn_zlen (IA ++ IB))) eqn:Ec.
+  - assert (Hfl : nn_first_last Z (NLeaf l (IA ++ IB)) <> None) by (rewrite first_last_leaf; apply lo_hi_some; exact Hne).
+    destruct (nn_first_last Z (NLeaf l (IA ++ IB))) as [fl|] eqn:Efl; [|congruence].
+    destruct (reset_limits_zip fs (NLeaf l (IA ++ IB)) (NNSt Z (plug (NLeaf l (IA ++ IB)) fs) (zpath fs) item w) [] fl
+                eq_refl (eq_sym (app_nil_r _)) Hnolim Efl Hsibs Hchain) as (a' & fs' & Hres & Hsame & Hch & Ha').
+    rewrite Hres. cbn [st_path st_item st_warn].
+    destruct fs as [|fr fs].
+    + destruct Hsame as [Hs _]. destruct fs'; [|discriminate]. subst a'. exists l, []. split; [reflexivity|].
+      split; [apply same_sibs_refl|]. split; [exact Hnolim|exact I].
+    + subst a'. cbn [nn_set_lim]. exists (Some fl), fs'. split; [reflexivity|]. split; [exact Hsame|].
+      destruct fs' as [|fr' fs']; [destruct Hsame as [Hs _]; discriminate|]. apply plug_ok_iff; [discriminate|].
+      split; [apply (sub_ok_set_first_last (NLeaf l (IA ++ IB)) fl Efl I)|]. split; [apply (sibs_ok_same _ _ Hsame Hsibs)|exact Hch].
+  - apply orb_false_iff in Ec. destruct Ec as [E1 E2]. apply Z.eqb_neq in E1, E2.
+    assert (HAne : IA <> []) by (intros ->; apply E1; reflexivity).
+    assert (HBne : IB <> []) by (intros ->; apply E2; rewrite app_nil_r; reflexivity).
+    exists l, fs. split; [reflexivity|]. split; [apply same_sibs_refl|].
+    destruct fs as [|fr fs]; [split; [exact Hnolim|exact I]|].
+    apply plug_ok_iff in Hok; [|discriminate]. destruct Hok as (Hsa & _ & _).
+    apply plug_ok_iff; [discriminate|]. split; [|split; [exact Hsibs|exact Hchain]].
+    destruct (sub_ok_lc _ Hsa) as [Hl1 Hl2]. apply sok_leaf. unfold lc in *. cbn [nn_lim] in *.
+    rewrite first_last_leaf in *. rewrite (lo_hi_drop_mid IA IB e HAne HBne) in Hl1, Hl2. split; assumption.
+Qed.
+
+(* remove through a valid iterator *)
+Lemma iter_remove_ok : forall t, 0 <= t -> forall (s : zst) A e B, tree_inv t (st_root Z s) ->
+  at_pos (st_root Z s) (st_path Z s) (st_item Z s) A e B ->
+  exists s', nn_iter_remove Z nn_zcmp s = Some s' /\ st_warn Z s' = st_warn Z s /\
+    tree_inv t (st_root Z s') /\ zabs (st_root Z s') = A ++ B /\
+    (B = [] -> st_item Z s' < 0) /\
+    (forall e' B', B = e' :: B' -> at_pos (st_root Z s') (st_path Z s') (st_item Z s') A e' B').
+Proof.
+  intros t Ht s A e B Hinv Hpos.
+  pose proof (at_pos_abs _ _ _ _ _ _ Hpos) as Habs.
+  pose proof (ti_sorted _ _ Hinv) as Hsorted. rewrite Habs in Hsorted. apply zsorted_drop_mid in Hsorted.
+  destruct Hpos as (fs & l & items & Hr & Hpath & Hi & Hn & HA & HB).
+  unfold nn_iter_remove. replace (st_item Z s <? 0) with false by (symmetry; apply Z.ltb_ge; lia).
+  unfold nn_leaf_items. rewrite Hr, Hpath, get_plug.
+  pose proof (c18_nth_lt _ _ _ Hn) as Hlt. set (n := Z.to_nat (st_item Z s)) in *.
+  replace (nn_zlen items <? st_item Z s + 1) with false by (symmetry; apply Z.ltb_ge; unfold nn_zlen; lia).
+  pose proof (c18_nth_split _ _ _ Hn) as Hsplit.
+  set (IA := firstn n items) in *. set (IB := skipn (S n) items) in *.
+  assert (HlenIA : length IA = n) by (unfold IA; rewrite firstn_length; lia).
+  assert (Her : nn_erase_at items n = IA ++ IB).
+  { rewrite Hsplit at 1. rewrite <- HlenIA. apply c18_erase_at_mid. }
+  cbv zeta. rewrite Her. unfold st_with_root. rewrite upd_plug, Hpath, zpath_length. cbn [nn_set_items].
+  assert (Hitem : st_item Z s = nn_zlen IA) by (unfold nn_zlen; rewrite HlenIA; unfold n; lia).
+  rewrite Hitem.
+  rewrite Hr in Hinv. pose proof (tree_inv_root_ok _ _ Hinv) as Hok. rewrite Hsplit in Hok.
+  pose proof (ti_size _ _ Hinv) as Hsz. apply size_ok_plug in Hsz. destruct Hsz as [Hlsz Hfsz].
+  cbn [size_ok] in Hlsz. apply Z.leb_le in Hlsz. rewrite Hsplit, c18_zlen_app, c18_zlen_cons in Hlsz.
+  destruct (0 <? nn_zlen (IA ++ IB)) eqn:En'.
+  - apply Z.ltb_lt in En'.
+    assert (Hne : IA ++ IB <> []) by (intros E0; rewrite E0 in En'; unfold nn_zlen in En'; simpl in En'; lia).
+    destruct (leaf_fix fs l IA IB e (nn_zlen IA) (st_warn Z s) Hne Hok) as (l' & fs' & Hfix & Hsame & Hrok).
+    rewrite Hfix. cbn [st_path].
+    assert (Hinv2 : tree_inv t (plug (NLeaf l' (IA ++ IB)) fs')).
+    { constructor.
+      - apply Hrok.
+      - apply Hrok.
+      - apply plug_ne. exact I.
+      - rewrite abs_plug. cbn [nn_abs]. rewrite <- (same_sibs_zpre _ _ Hsame), <- (same_sibs_zpost _ _ Hsame).
+        rewrite HA, HB in Hsorted. rewrite <- !app_assoc in *. exact Hsorted.
+      - apply size_ok_plug. split; [|apply (fsize_ok_same t fs); assumption]. cbn [size_ok]. apply Z.leb_le.
+        rewrite c18_zlen_app. lia. }
+    assert (Habs2 : zabs (plug (NLeaf l' (IA ++ IB)) fs') = A ++ B).
+    { rewrite abs_plug. cbn [nn_abs]. rewrite <- (same_sibs_zpre _ _ Hsame), <- (same_sibs_zpost _ _ Hsame), HA, HB.
+      rewrite <- !app_assoc. reflexivity. }
+    assert (Hzp : zpath fs = zpath fs') by (apply same_sibs_zpath; exact Hsame).
+    destruct (nn_zlen IA =? nn_zlen (IA ++ IB)) eqn:Elast.
+    + apply Z.eqb_eq in Elast. rewrite c18_zlen_app in Elast.
+      assert (HB0 : IB = []).
+      { destruct IB as [|x IB']; [reflexivity|]. rewrite c18_zlen_cons in Elast. pose proof (c18_zlen_nonneg IB'). lia. }
+      rewrite HB0 in *. rewrite app_nil_r in *.
+      destruct (c18_last_or_nil IA) as [E0|(IA' & ep & HIA)]; [congruence|]. rewrite HIA in *.
+      assert (Hp3 : at_pos (plug (NLeaf l' (IA' ++ [ep])) fs') (zpath fs) (nn_zlen (IA' ++ [ep]) - 1)
+                      (zpre fs' ++ IA') ep ([] ++ zpost fs')).
+      { pose proof (at_pos_plug _ _ _ _ _ _ fs' (at_pos_leaf_intro l' IA' ep [])) as X.
+        rewrite app_nil_r, <- Hzp in X.
+        replace (nn_zlen (IA' ++ [ep]) - 1) with (nn_zlen IA') by (rewrite c18_zlen_app, c18_zlen_cons, c18_zlen_nil; lia).
+        exact X. }
+      match goal with |- context [nn_increment Z false ?s3] =>
+        destruct (increment_fwd s3 _ ep _ Hrok Hp3) as (p4 & i4 & Hinc & H41 & H42)
+      end.
+      rewrite Hinc. eexists. split; [reflexivity|]. cbn [st_warn st_root st_path st_item st_with_iter].
+      split; [reflexivity|]. split; [exact Hinv2|]. split; [exact Habs2|].
+      cbn [app] in *. rewrite HB.
+      split.
+      * intros Hz. assert (Hlt' : i4 = -1); [|lia]. apply H41. rewrite <- (same_sibs_zpost _ _ Hsame). exact Hz.
+      * intros e' B' Hz. eapply at_pos_eq; [apply (H42 e' B')| |reflexivity].
+        -- rewrite <- (same_sibs_zpost _ _ Hsame). exact Hz.
+        -- rewrite HA, <- (same_sibs_zpre _ _ Hsame), <- !app_assoc. reflexivity.
+    + apply Z.eqb_neq in Elast. rewrite c18_zlen_app in Elast.
+      destruct IB as [|e1 IB']; [rewrite c18_zlen_nil in Elast; lia|].
+      eexists. split; [reflexivity|]. cbn [st_warn st_root st_path st_item].
+      split; [reflexivity|]. split; [exact Hinv2|]. split; [exact Habs2|].
+      rewrite HB. cbn [app]. split; [discriminate|].
+      intros e' B' Hz. injection Hz as <- <-.
+      pose proof (at_pos_plug _ _ _ _ _ _ fs' (at_pos_leaf_intro l' IA e1 IB')) as X.
+      rewrite app_nil_r, <- Hzp in X. eapply at_pos_eq; [exact X| |].
+      * rewrite HA, (same_sibs_zpre _ _ Hsame). reflexivity.
+      * rewrite (same_sibs_zpost _ _ Hsame). reflexivity.
+  - apply Z.ltb_ge in En'. rewrite c18_zlen_app in En'.
+    assert (HA0 : IA = []) by (destruct IA as [|x IA']; [reflexivity|rewrite c18_zlen_cons in En'; pose proof (c18_zlen_nonneg IA'); pose proof (c18_zlen_nonneg IB); lia]).
+    assert (HB0 : IB = []) by (destruct IB as [|x IB']; [reflexivity|rewrite c18_zlen_cons in En'; pose proof (c18_zlen_nonneg IB'); pose proof (c18_zlen_nonneg IA); lia]).
+    rewrite HA0, HB0 in *. cbn [app] in *. rewrite app_nil_r in HA. subst A B.
+    destruct fs as [|fr fs'].
+    + cbn [zpath rzpath map rev plug zpre zpost app] in *.
+      eexists. split; [reflexivity|]. cbn [st_warn st_root st_path st_item st_with_iter].
+      destruct Hok as [Hnl _]. cbn [nn_lim] in Hnl. subst l.
+      split; [reflexivity|]. split; [|split; [reflexivity|split; [intros _; lia|intros e' B' Hz; discriminate]]].
+      constructor; try exact I; try reflexivity.
+      * constructor.
+      * cbn [size_ok]. apply Z.leb_le. rewrite c18_zlen_nil. exact Ht.
+    + rewrite c18_match_ne by (rewrite zpath_cons; destruct (zpath fs'); discriminate).
+      rewrite rev'_zpath.
+      apply plug_ok_iff in Hok; [|discriminate]. destruct Hok as (_ & Hsibs & Hchain).
+      match goal with |- context [nn_remove_up Z nn_zcmp _ _ ?s1] =>
+      destruct (remove_up_ok t Ht (fr :: fs') (NLeaf l []) s1
+                  (S (length (fr :: fs'))) eq_refl ltac:(discriminate) eq_refl Hsibs)
+        as (s' & Hru & Hw & Hrok & Hne' & Hsz' & Habs' & H1 & H2) end.
+      * apply (chain_ok_lim _ (NLeaf l [e])); [reflexivity|exact Hchain].
+      * exact Hfsz.
+      * lia.
+      * exists s'. split; [exact Hru|]. split; [exact Hw|]. split; [|split; [exact Habs'|split; [exact H1|exact H2]]].
+        constructor; [apply Hrok|apply Hrok|exact Hne'|rewrite Habs'; exact Hsorted|exact Hsz'].
+Qed.
+
+(* M3: remove through the iterator and remove by key, from any valid tree: pruning of emptied
+   nodes up to the root, /Limits, the successor the iterator lands on, the returned value *)
+Lemma nn_remove_refines_lemma : forall (t : Z) (s : nnst Z) (m : smst Z) (op : nnop Z),
+  0 <= t -> c18_rel t s m -> (op = OpIterRemove \/ exists k, op = OpRemove k) -> c18_step_ok t op s m.
+Proof.
+  intros t s m op Ht (Hinv & Hmap & Hun & Hcur) Hop.
+  pose proof (ti_sorted _ _ Hinv) as Hsorted.
+  unfold c18_step_ok. destruct Hop as [->|[k ->]].
+  - change (nn_step Z nn_zcmp t OpIterRemove s) with
+      (match nn_iter_remove Z nn_zcmp s with Some s' => (RIter (nn_cur Z s'), s') | None => (RErr, s) end).
+    unfold sm_step.
+    destruct Hcur as [[Hi Hc]|(A & e & B & Hpos & Hc)]; rewrite Hc.
+    + unfold nn_iter_remove. apply Z.ltb_lt in Hi. rewrite Hi. cbn [fst snd].
+      split; [reflexivity|]. split; [|reflexivity].
+      split; [exact Hinv|]. split; [exact Hmap|]. split; [exact Hun|]. left. split; [apply Z.ltb_lt; exact Hi|exact Hc].
+    + pose proof (at_pos_abs _ _ _ _ _ _ Hpos) as Habs. rewrite Habs in Hsorted.
+      assert (Hsucc : sm_succ Z nn_zcmp (fst e) (sm_map Z m) = hd_error B)
+        by (rewrite Hmap, Habs; apply sm_succ_mid; exact Hsorted).
+      assert (Hrem : sm_remove Z nn_zcmp (fst e) (sm_map Z m) = A ++ B)
+        by (rewrite Hmap, Habs; apply sm_remove_mid; exact Hsorted).
+      rewrite Hsucc, Hrem.
+      destruct (iter_remove_ok t Ht s A e B Hinv Hpos) as (s' & Hir & Hw & Hinv' & Habs' & H1 & H2).
+      rewrite Hir. cbn [fst snd].
+      destruct B as [|e' B'].
+      * rewrite (cur_none _ (H1 eq_refl)). split; [reflexivity|]. split; [|exact Hw].
+        split; [exact Hinv'|]. split; [symmetry; exact Habs'|]. split; [exact Hun|]. left. split; [apply H1; reflexivity|reflexivity].
+      * rewrite (at_pos_cur s' A e' B' (H2 e' B' eq_refl)). split; [reflexivity|]. split; [|exact Hw].
+        split; [exact Hinv'|]. split; [symmetry; exact Habs'|]. split; [exact Hun|].
+        right. exists A, e', B'. split; [apply H2; reflexivity|reflexivity].
+  - change (nn_step Z nn_zcmp t (OpRemove k) s) with
+      (match nn_remove Z nn_zcmp k s with Some (v, s') => (RRemoved v, nn_fresh Z s') | None => (@RErr Z, s) end).
+    change (sm_step Z nn_zcmp (OpRemove k) m) with
+      (@RRemoved Z (option_map snd (sm_at Z nn_zcmp k (sm_map Z m))),
+       SmSt Z (sm_remove Z nn_zcmp k (sm_map Z m)) None (sm_unspec Z m)).
+    unfold nn_remove.
+    destruct (find_ok t k false s Hinv) as (it & Hf & Hr & Hw & Hpost). rewrite Hf.
+    destruct Hpost as [[Hall Hi]|(A & e & B & HAeB & He & HB & Hc)].
+    + rewrite (cur_none _ Hi). replace (st_item Z it <? 0) with true by (symmetry; apply Z.ltb_lt; exact Hi).
+      rewrite <- Hmap in Hall. destruct (sm_before_all _ _ Hall) as (Hat & _ & _ & Hrm). rewrite Hat, Hrm. cbn [fst snd option_map].
+      split; [reflexivity|]. split; [|exact Hw].
+      split; [cbn; rewrite Hr; exact Hinv|]. split; [cbn; rewrite Hr; exact Hmap|]. split; [exact Hun|].
+      left. split; [cbn; lia|reflexivity].
+    + rewrite HAeB in Hsorted. destruct Hc as [[Hc Hpos]|(Hneq & _ & Hi)].
+      * destruct Hc as [Heq|?]; [|discriminate]. rewrite <- Hr in Hpos, Hinv.
+        rewrite (at_pos_cur it A e B Hpos). destruct e as [ke ve]. cbn [fst] in Heq. subst ke.
+        destruct (iter_remove_ok t Ht it A (k, ve) B Hinv Hpos) as (s' & Hir & Hw' & Hinv' & Habs' & _ & _).
+        rewrite Hir.
+        assert (Hat : sm_at Z nn_zcmp k (sm_map Z m) = Some (k, ve))
+          by (rewrite Hmap, HAeB; apply (sm_at_mid A (k, ve) B Hsorted)).
+        assert (Hrm : sm_remove Z nn_zcmp k (sm_map Z m) = A ++ B)
+          by (rewrite Hmap, HAeB; apply (sm_remove_mid A (k, ve) B Hsorted)).
+        rewrite Hat, Hrm. cbn [fst snd option_map].
+        split; [reflexivity|]. split; [|cbn; rewrite Hw'; exact Hw].
+        split; [exact Hinv'|]. split; [cbn; symmetry; exact Habs'|]. split; [exact Hun|].
+        left. split; [cbn; lia|reflexivity].
+      * rewrite (cur_none _ Hi). replace (st_item Z it <? 0) with true by (symmetry; apply Z.ltb_lt; exact Hi).
+        assert (Hat : sm_at Z nn_zcmp k (sm_map Z m) = None)
+          by (rewrite Hmap, HAeB; apply (sm_at_mid_other A e B Hsorted); [lia|exact HB]).
+        assert (Hrm : sm_remove Z nn_zcmp k (sm_map Z m) = sm_map Z m)
+          by (rewrite Hmap, HAeB; apply (sm_remove_mid_other A e B Hsorted); [lia|exact HB]).
+        rewrite Hat, Hrm. cbn [fst snd option_map].
+        split; [reflexivity|]. split; [|exact Hw].
+        split; [cbn; rewrite Hr; exact Hinv|]. split; [cbn; rewrite Hr; exact Hmap|]. split; [exact Hun|].
+        left. split; [cbn; lia|reflexivity].
+Qed.
